@@ -26,6 +26,8 @@ type TimingCfg struct {
 	Stop        bool   // batch: stop-on-error mode
 	Dur2        int    // batch: failing attempts of item 2 take this long (ms)
 	Dur         int    // every failing attempt takes this long (ms): the wait counts from its END
+	ErrKind     int    // what a failing attempt returns: 0 plain, 1 wraps context.DeadlineExceeded, 2 wraps context.Canceled, 3 errors.Join
+	DeadlineMs  int    // > 0: the run's context carries a real deadline this long after the start (instead of cancel())
 }
 
 func (c TimingCfg) toJSON() map[string]any {
@@ -33,11 +35,13 @@ func (c TimingCfg) toJSON() map[string]any {
 	for _, b := range c.Script {
 		sc = append(sc, b)
 	}
-	return map[string]any{"w": c.W, "N": c.N, "kind": c.Kind, "n": c.Items, "c": c.C, "script": sc, "upper": c.Upper, "cancelafter": c.CancelAfter, "dur": c.Dur, "fb": c.Fb, "stop": c.Stop, "dur2": c.Dur2}
+	return map[string]any{"w": c.W, "N": c.N, "kind": c.Kind, "n": c.Items, "c": c.C, "script": sc, "upper": c.Upper, "cancelafter": c.CancelAfter, "dur": c.Dur, "fb": c.Fb, "stop": c.Stop, "dur2": c.Dur2,
+		"errkind": c.ErrKind, "deadlinems": c.DeadlineMs}
 }
 
 func parseTimingCfg(m map[string]any) TimingCfg {
-	c := TimingCfg{W: asInt(m["w"]), N: asInt(m["N"]), Kind: asStr(m["kind"]), Items: asInt(m["n"]), C: asInt(m["c"]), Upper: asBool(m["upper"]), CancelAfter: asInt(m["cancelafter"]), Dur: asInt(m["dur"]), Fb: asBool(m["fb"]), Stop: asBool(m["stop"]), Dur2: asInt(m["dur2"])}
+	c := TimingCfg{W: asInt(m["w"]), N: asInt(m["N"]), Kind: asStr(m["kind"]), Items: asInt(m["n"]), C: asInt(m["c"]), Upper: asBool(m["upper"]), CancelAfter: asInt(m["cancelafter"]), Dur: asInt(m["dur"]), Fb: asBool(m["fb"]), Stop: asBool(m["stop"]), Dur2: asInt(m["dur2"]),
+		ErrKind: asInt(m["errkind"]), DeadlineMs: asInt(m["deadlinems"])}
 	for _, b := range asList(m["script"]) {
 		c.Script = append(c.Script, asBool(b))
 	}
@@ -96,7 +100,7 @@ func (t *timingRun) exec(p int) (any, error) {
 	if !ok && p == 2 && t.cfg.Dur2 > 0 {
 		time.Sleep(time.Duration(t.cfg.Dur2) * time.Millisecond)
 	}
-	if t.cfg.CancelAfter == k {
+	if t.cfg.CancelAfter == k && t.cfg.DeadlineMs == 0 {
 		time.AfterFunc(20*time.Millisecond, func() {
 			t.log(Event{"ev": "cancel", "t": t.us()})
 			t.cancel()
@@ -107,12 +111,26 @@ func (t *timingRun) exec(p int) (any, error) {
 	if ok {
 		return "x", nil
 	}
+	// the error of a failed attempt is the callback's own business: also when it looks like a context error
+	// (a call with its own timeout inside the attempt) while the run's context is alive
+	switch t.cfg.ErrKind {
+	case 1:
+		return nil, fmt.Errorf("downstream call: %w", context.DeadlineExceeded)
+	case 2:
+		return nil, fmt.Errorf("downstream call: %w", context.Canceled)
+	case 3:
+		return nil, errors.Join(errors.New("attempt failed"), errors.New("and its clean-up too"))
+	}
 	return nil, errors.New("attempt failed")
 }
 
 func runTimingScenario(cfg TimingCfg) []Event {
 	t := &timingRun{cfg: cfg, att: map[int]int{}}
 	ctx, cancel := context.WithCancel(context.Background())
+	t.start = time.Now()
+	if cfg.DeadlineMs > 0 {
+		ctx, cancel = context.WithDeadline(context.Background(), t.start.Add(time.Duration(cfg.DeadlineMs)*time.Millisecond))
+	}
 	t.cancel = cancel
 	defer cancel()
 	wait := time.Duration(cfg.W) * time.Millisecond
@@ -154,7 +172,6 @@ func runTimingScenario(cfg TimingCfg) []Event {
 				return flyt.DefaultAction, nil
 			})
 	}
-	t.start = time.Now()
 	done := make(chan struct{})
 	var err error
 	go func() {
@@ -163,7 +180,12 @@ func runTimingScenario(cfg TimingCfg) []Event {
 	}()
 	select {
 	case <-done:
-		t.log(Event{"ev": "runret", "t": t.us(), "iserr": err != nil, "ctxerr": err != nil && errors.Is(err, context.Canceled)})
+		tr := t.us()
+		if cfg.DeadlineMs > 0 && ctx.Err() != nil {
+			// the cancellation happened at the deadline instant (no event if the run was over before it)
+			t.log(Event{"ev": "cancel", "t": cfg.DeadlineMs * 1000})
+		}
+		t.log(Event{"ev": "runret", "t": tr, "iserr": err != nil, "ctxerr": err != nil && ctx.Err() != nil && errors.Is(err, ctx.Err())})
 	case <-time.After(30 * time.Second):
 		t.log(Event{"ev": "hang", "t": t.us()})
 	}
@@ -198,7 +220,7 @@ func init() {
 					for i := range sc {
 						sc[i] = mask&(1<<uint(i)) != 0
 					}
-					c := TimingCfg{W: w, N: n, Kind: kinds[r.Intn(3)], Script: sc}
+					c := TimingCfg{W: w, N: n, Kind: kinds[r.Intn(3)], Script: sc, ErrKind: len(cfgs) % 4}
 					if c.Kind == "batch" {
 						c.Items, c.C = 1+r.Intn(3), r.Intn(3)
 					}
@@ -209,7 +231,7 @@ func init() {
 		// T1 again with slow failing attempts: the wait is measured from the END of the failed attempt
 		for _, k := range kinds {
 			for _, w := range []int{5, 20} {
-				c := TimingCfg{W: w, N: 3, Kind: k, Script: []bool{false, false, true}, Dur: w + w/2}
+				c := TimingCfg{W: w, N: 3, Kind: k, Script: []bool{false, false, true}, Dur: w + w/2, ErrKind: 1 + len(cfgs)%2}
 				if k == "batch" {
 					c.Items, c.C = 2, []int{0, 2}[w%2]
 				}
@@ -245,6 +267,11 @@ func init() {
 						c.Items, c.C = 1+ca%2, []int{0, 2}[ca%2]
 					}
 					cfgs = append(cfgs, c)
+					if ca <= 2 && n <= 3 {
+						// the same cancellation arriving as the expiry of the context's deadline, 150 ms into the wait
+						c.DeadlineMs = (ca-1)*w + 150
+						cfgs = append(cfgs, c)
+					}
 				}
 			}
 		}
